@@ -413,13 +413,11 @@ func (m *Memory) FindLatest(
 		now *am.TimeIndex, txn *badger.Txn) []*amhist.MemoryRecord {
 
 		machId := mach.Id()
-		mTimeIdxs := mach.Index(s.MTimeStates)
-		var older *amhist.MemoryRecord
-		r := &amhist.MemoryRecord{
-			Time: &amhist.TimeRecord{},
-		}
+		mTimeIdxsStart := m.Index(s.MTimeStates)
+		mTimeIdxsEnd := m.Index(e.MTimeStates)
 		var ret []*amhist.MemoryRecord
 
+	records:
 		for id := m.nextId.Load() - 1; id > 0; id-- {
 			if ctx.Err() != nil || m.Ctx.Err() != nil {
 				return nil
@@ -432,87 +430,58 @@ func (m *Memory) FindLatest(
 			}
 
 			// read TimeRecord
-			// 1st pass, move 1 more down
-			if older == nil {
-				id--
-				r.Time, err = DecTimeRecord(machId, id, v, cfg.EncJson)
-				v2, err2 := getVal(txn, timeKey(machId, id))
-				if err2 == nil {
-					older = &amhist.MemoryRecord{
-						Time: &amhist.TimeRecord{},
-					}
-					older.Time, err = DecTimeRecord(machId, id, v2, cfg.EncJson)
-					if err != nil {
-						m.onErr(err)
-						return nil
-					}
-				}
-
-				// 2nd and later passes
-			} else if v != nil {
-				r = older
-				older = &amhist.MemoryRecord{
-					Time: &amhist.TimeRecord{},
-				}
-				older.Time, err = DecTimeRecord(machId, id, v, cfg.EncJson)
-				// TODO tx
-
-				// last pass
-			} else {
-				r = older
-				older = nil
-			}
-			// err
+			t, err := DecTimeRecord(machId, id, v, cfg.EncJson)
 			if err != nil {
 				m.onErr(err)
 				return nil
 			}
+			r := &amhist.MemoryRecord{Time: t}
 
 			// states conditions
-			t := r.Time
 
 			// Active
 			for _, state := range query.Active {
 				if !am.IsActiveTick(t.MTimeTracked[m.Index1(state)]) {
-					continue
+					continue records
 				}
 			}
 			// Activated
 			for _, state := range query.Activated {
 				idx := m.Index1(state)
 				if !am.IsActiveTick(t.MTimeTracked[idx]) {
-					continue
+					continue records
 				}
-				// if has previously been active
-				if older != nil && am.IsActiveTick(older.Time.MTimeTracked[idx]) {
-					continue
+				// if hasn't changed during this transition
+				if t.MTimeTrackedDiff[idx] == 0 {
+					continue records
 				}
 			}
 			// Inactive
 			for _, state := range query.Inactive {
-				if am.IsActiveTick(t.MTimeTracked[mach.Index1(state)]) {
-					continue
+				if am.IsActiveTick(t.MTimeTracked[m.Index1(state)]) {
+					continue records
 				}
 			}
 			// Deactivated
 			for _, state := range query.Deactivated {
 				idx := m.Index1(state)
 				if am.IsActiveTick(t.MTimeTracked[idx]) {
-					continue
+					continue records
 				}
-				// if has previously been inactive
-				if older != nil && !am.IsActiveTick(older.Time.MTimeTracked[idx]) {
-					continue
+				// if hasn't changed during this transition
+				if t.MTimeTrackedDiff[idx] == 0 {
+					continue records
 				}
 			}
-			// MTimeStates
-			if len(s.MTimeStates) > 0 {
-				// caution: slice a sliced time slice
-				mTimeTrackedCond := t.MTimeTracked.Filter(mTimeIdxs)
-				if mTimeTrackedCond.Before(false, s.MTime) ||
-					mTimeTrackedCond.After(false, e.MTime) {
-
-					continue
+			// MTimeStates (each state's tick within its own range)
+			for ii, idx := range mTimeIdxsStart {
+				if t.MTimeTracked[idx] < s.MTime[ii] {
+					continue records
+				}
+			}
+			for ii, idx := range mTimeIdxsEnd {
+				if t.MTimeTracked[idx] > e.MTime[ii] {
+					continue records
 				}
 			}
 
